@@ -347,6 +347,63 @@ func init() {
 					}
 					c.Case(0, true, agree(c, "hostile-name", it, n, 2))
 				}})
+			// items with very many variables (position bookkeeping beyond 255 / 65535)
+			manyN := []int{255, 256, 257, 1000, 65535, 65536, 65537, 70000}
+			manyK := []ref.Kind{ref.U1, ref.BOOLEAN, ref.F8, ref.L}
+			sp = append(sp, h.Space{Name: "items-with-many-variables", Count: uint64(len(manyN) * len(manyK)), ChunkHint: 1,
+				Describe: func(i uint64) interface{} {
+					return fmt.Sprintf("%s with %d variables", manyK[i%uint64(len(manyK))], manyN[i/uint64(len(manyK))])
+				},
+				Run: func(c *h.Ctx, i uint64) {
+					n, k := manyN[i/uint64(len(manyK))], manyK[i%uint64(len(manyK))]
+					if tier != "thorough" && n > 1000 && k != ref.U1 && k != ref.L {
+						c.Case(0, false, "thorough-only")
+						return
+					}
+					vals := make([]interface{}, n+1)
+					want := make([]string, n)
+					for j := 0; j < n; j++ {
+						// names whose lexicographic order differs from their positions
+						want[j] = fmt.Sprintf("v%d_%d", (j*7919)%n, j)
+						vals[j] = want[j]
+					}
+					var it ast.ItemNode
+					var pan string
+					switch k {
+					case ref.L:
+						vals[n] = ast.NewUintNode(1, 1)
+						vals[0], vals[n] = vals[n], vals[0] // the item first (an ellipsis-free list may start with an item)
+						want = append(want[1:], want[0])
+						it, pan = tryItem(func() ast.ItemNode { return ast.NewListNode(vals...) })
+					case ref.BOOLEAN:
+						vals[n] = true
+						it, pan = tryItem(func() ast.ItemNode { return ast.NewBooleanNode(vals...) })
+					case ref.F8:
+						vals[n] = 0.5
+						it, pan = tryItem(func() ast.ItemNode { return ast.NewFloatNode(8, vals...) })
+					default:
+						vals[n] = 9
+						it, pan = tryItem(func() ast.ItemNode { return ast.NewUintNode(1, vals...) })
+					}
+					c.Ops(1)
+					in := fmt.Sprintf("%s with %d distinct variables", k, n)
+					if pan != "" {
+						c.Fail("many-variables-refused", in, pan)
+						c.Case(0, true, "bad")
+						return
+					}
+					got := it.Variables()
+					if !eqStrings(got, want) {
+						bad := 0
+						for bad < len(got) && bad < len(want) && got[bad] == want[bad] {
+							bad++
+						}
+						c.Fail("variables-order-with-many-variables", in, fmt.Sprintf("%d names returned; first difference at position %d", len(got), bad))
+					} else if names, cnt := printedFacts(itemString(it)); !eqStrings(names, want) || cnt != n+1 || it.Size() != n+1 || len(it.ToBytes()) != 0 {
+						c.Fail("observers-disagree-with-many-variables", in, fmt.Sprintf("printed names %d, printed elements %d, Size() %d, len(ToBytes()) %d", len(names), cnt, it.Size(), len(it.ToBytes())))
+					}
+					c.Case(0, true, "many-variables")
+				}})
 			// the same name twice anywhere in a tree must be refused by the factories (every pair of variable positions)
 			ds := NewTreeScope(atoms, 3, 3, 3)
 			sp = append(sp, h.Space{Name: "same-name-at-every-pair-of-positions", Count: ds.Count(),
